@@ -870,7 +870,8 @@ func runC25(c *Ctx) {
 					return true
 				}
 				if b, isB := cond.(*ssa.BinOp); isB {
-					if x, _, k, isCmp := zeroOneCompare(b); isCmp && k == 0 && isExpiryLoad(res(x)) {
+					// `Expiry > 0`, `!= 0`, … or, the same question for an integer, `Expiry >= 1` / `< 1`
+					if x, op, k, isCmp := zeroOneCompare(b); isCmp && (k == 0 || k == 1 && (op == token.GEQ || op == token.LSS)) && isExpiryLoad(res(x)) {
 						return true
 					}
 				}
